@@ -3,7 +3,7 @@
 (* m = 0 => e = 0, and e > 0 => m odd.  IEEE binary arithmetic is exact on the small      *)
 (* lattices used by the Lie-group specifications, so recorded float results can be        *)
 (* compared with these values by equality.  Also vectors / matrices over them.            *)
-EXTENDS Naturals, Integers, Sequences
+EXTENDS Naturals, Integers, Sequences, TLC
 
 RECURSIVE Pow2(_)
 Pow2(k) == IF k = 0 THEN 1 ELSE 2 * Pow2(k - 1)
@@ -43,30 +43,31 @@ DInvPow2(a) == LET sg == IF a[1] < 0 THEN -1 ELSE 1
                ELSE DNorm(<<sg, Log2(ab)>>)                  \* a = +-2^k
 
 \* ------------------------------------------------------------------ vectors and matrices
-VAdd(u, v)   == [i \in DOMAIN u |-> DAdd(u[i], v[i])]
-VSub(u, v)   == [i \in DOMAIN u |-> DSub(u[i], v[i])]
-VNeg(u)      == [i \in DOMAIN u |-> DNeg(u[i])]
-VScale(c, u) == [i \in DOMAIN u |-> DMul(c, u[i])]
-VZero(n)     == [i \in 1..n |-> DZero]
-
+\* (function constructors are forced with TLCEval: TLC would otherwise keep them as lazy closures
+\*  re-evaluated at every application, which makes nested vector code exponential)
+VAdd(u, v)   == TLCEval([i \in DOMAIN u |-> DAdd(u[i], v[i])])
+VSub(u, v)   == TLCEval([i \in DOMAIN u |-> DSub(u[i], v[i])])
+VNeg(u)      == TLCEval([i \in DOMAIN u |-> DNeg(u[i])])
+VScale(c, u) == TLCEval([i \in DOMAIN u |-> DMul(c, u[i])])
+VZero(n)     == TLCEval([i \in 1..n |-> DZero])
 RECURSIVE DSum(_, _)
 DSum(f, n) == IF n = 0 THEN DZero ELSE DAdd(DSum(f, n - 1), f[n])
-Dot(u, v)  == DSum([i \in DOMAIN u |-> DMul(u[i], v[i])], Len(u))
+Dot(u, v)  == DSum(TLCEval([i \in DOMAIN u |-> DMul(u[i], v[i])]), Len(u))
 
 Cross(u, v) == << DSub(DMul(u[2], v[3]), DMul(u[3], v[2])),
                   DSub(DMul(u[3], v[1]), DMul(u[1], v[3])),
                   DSub(DMul(u[1], v[2]), DMul(u[2], v[1])) >>
 
 \* matrices are sequences of rows
-MatVec(M, v)  == [i \in DOMAIN M |-> Dot(M[i], v)]
-Col(M, j)     == [i \in DOMAIN M |-> M[i][j]]
-MatMul(A, B)  == [i \in DOMAIN A |-> [j \in DOMAIN B[1] |-> Dot(A[i], Col(B, j))]]
-Transpose(A)  == [j \in DOMAIN A[1] |-> [i \in DOMAIN A |-> A[i][j]]]
-MatScale(c, A) == [i \in DOMAIN A |-> VScale(c, A[i])]
-MatAdd(A, B)  == [i \in DOMAIN A |-> VAdd(A[i], B[i])]
-Ident(n)      == [i \in 1..n |-> [j \in 1..n |-> IF i = j THEN DOne ELSE DZero]]
+MatVec(M, v)  == TLCEval([i \in DOMAIN M |-> Dot(M[i], v)])
+Col(M, j)     == TLCEval([i \in DOMAIN M |-> M[i][j]])
+MatMul(A, B)  == TLCEval([i \in DOMAIN A |-> [j \in DOMAIN B[1] |-> Dot(A[i], Col(B, j))]])
+Transpose(A)  == TLCEval([j \in DOMAIN A[1] |-> [i \in DOMAIN A |-> A[i][j]]])
+MatScale(c, A) == TLCEval([i \in DOMAIN A |-> VScale(c, A[i])])
+MatAdd(A, B)  == TLCEval([i \in DOMAIN A |-> VAdd(A[i], B[i])])
+Ident(n)      == TLCEval([i \in 1..n |-> [j \in 1..n |-> IF i = j THEN DOne ELSE DZero]])
 Skew(v)       == << <<DZero, DNeg(v[3]), v[2]>>,
                     <<v[3], DZero, DNeg(v[1])>>,
                     <<DNeg(v[2]), v[1], DZero>> >>
-Outer(u, v)   == [i \in DOMAIN u |-> [j \in DOMAIN v |-> DMul(u[i], v[j])]]
+Outer(u, v)   == TLCEval([i \in DOMAIN u |-> [j \in DOMAIN v |-> DMul(u[i], v[j])]])
 ================================================================================
